@@ -31,6 +31,7 @@ EXPLANATION = (
 def run(ctx):
     ctx.rule(dtype_in)
     ctx.rule(dtype_out)
+    ctx.rule(full_keeps_dtype)
     ctx.rule(fft_pairing)
     ctx.rule(prep)
     ctx.rule(logfloor)
@@ -119,6 +120,68 @@ def dtype_out(ctx, R="R-C03-dtype-out"):
         for r in astq.returns_of(f):
             ctx.check(astq.is_name(r.value, "coeffs"), R, f, r, "%s returns that array" % name, "%s returns %s" % (name, astq.text(r.value)))
         ctx.check("self.num_coeffs" in " ".join(astq.text(a.value) for a in allocs), R, f, allocs[0], "%s results have num_coeffs columns" % name)
+
+
+def _dtype_class(e, sig):
+    """'in' (the signal's own dtype) | 'f64' | '?' for an array expression built from the signal"""
+    if not isinstance(e, S.E):
+        return "?"
+    if e.op == "sym":
+        return "in" if e.args[0] == sig else "?"
+    if e.op == "cond":
+        ks = {_dtype_class(a, sig) for a in e.args[1:]}
+        return "f64" if "f64" in ks else ("?" if "?" in ks else "in")
+    if e.op != "call":
+        return "?"
+    nm = e.args[0]
+    kws = {a.args[0][3:]: a.args[1] for a in e.args[1:] if isinstance(a, S.E) and a.op == "call" and str(a.args[0]).startswith("kw:")}
+    if nm in ("np.zeros", "np.ones", "np.empty", "np.full"):
+        d = kws.get("dtype")
+        if d is None:
+            pos = [a for a in e.args[1:] if not (isinstance(a, S.E) and a.op == "call" and str(a.args[0]).startswith("kw:"))]
+            d = pos[1] if len(pos) > 1 and nm != "np.full" else None
+        if d is None:
+            return "f64"
+        return "in" if S.show(d) in (sig + ".dtype",) else ("f64" if S.show(d) in ("numpy.float64", "np.float64", "float") else "?")
+    if nm in ("np.zeros_like", "np.pad", "np.ascontiguousarray", "np.asarray", "np.array", "getitem", ".copy", "np.flip", ".reshape", "np.atleast_1d") and "dtype" not in kws:
+        return _dtype_class(e.args[1], sig)
+    if nm in ("np.concatenate", "np.hstack", "np.append"):
+        items = e.args[1].args[1:] if (isinstance(e.args[1], S.E) and e.args[1].op == "call" and e.args[1].args[0] in ("list", "tuple")) else e.args[1:]
+        ks = {_dtype_class(i, sig) for i in items if isinstance(i, S.E) and not (i.op == "call" and str(i.args[0]).startswith("kw:"))}
+        if "?" in ks:
+            return "?"
+        return "f64" if "f64" in ks else "in"
+    if nm == ".astype" and len(e.args) >= 3:
+        return "in" if S.show(e.args[2]) == sig + ".dtype" else ("f64" if S.show(e.args[2]) in ("numpy.float64", "np.float64") else "?")
+    return "?"
+
+
+def full_keeps_dtype(ctx, R="R-C03-dtype-out"):
+    """compute_full feeds compute_chunk an array of the signal's own dtype (the result dtype is fixed by the first chunk)"""
+    prog = ctx.prog
+    c = _si(prog)
+    g = prog.find_method(c, "compute_full")
+    ctx.need(g is not None, R, "compute_full not found")
+    if g.cls is not c:
+        ctx.ok(R, g.loc(), "compute_full is inherited: frame_by_frame_calculation feeds slices of the signal itself")
+        return
+    ev = SymEval(prog, g, seed={"self._started": False}).run()
+    sig = g.params[1]
+    seen = 0
+    for _, v, rn in ev.returns:
+        for x in S.walk(v):
+            if isinstance(x, S.E) and x.op == "call" and x.args[0] == ".compute_chunk" and len(x.args) >= 3:
+                seen += 1
+                k = _dtype_class(x.args[2], sig)
+                if k == "in":
+                    ctx.ok(R, g.loc(rn), "compute_full feeds compute_chunk an array of the signal's own dtype")
+                elif k == "f64":
+                    ctx.bad(R, g, rn, "compute_full hands compute_chunk %s: a float32 / float16 signal is promoted to float64 before the first chunk fixes the "
+                            "result dtype, so the result is float64" % S.show(x.args[2])[:120], "compute_full feeds compute_chunk an array of the signal's own dtype")
+                else:
+                    ctx.error(R, "cannot decide the dtype of what compute_full hands to compute_chunk: %s" % S.show(x.args[2])[:140])
+    if not seen:
+        ctx.error(R, "cannot decide: SI compute_full does not go through compute_chunk (%s)" % (S.show(ev.returns[0][1])[:120] if ev.returns else "no return"))
 
 
 def fft_pairing(ctx, R="R-C03-fft-pairing"):
